@@ -3,7 +3,8 @@
  * One case per line:   <nmutex>|<sched>|<prog0>|<prog1>|...      (same text the OCaml driver reads)
  *   prog0 is executed by the main thread, prog<u> by a Cello Thread created by the `S<u>` of its parent
  *   (prog0 or another worker program); only the creator joins (`J<u>`) and reads (`P<u>`) it.
- *   tokens:  a0 a1  u<i>  c  s<k>,<v>  g<k>  m<k>  r<k>  e<v>  w<k>,<n>  o  y  t<e>
+ *   tokens:  a0 a1  u<i>  c  s<k>,<v>  g<k>  m<k>  r<k>  e<v>  w<k>,<n>  o  y  z<ms>  t<e>
+ *            a second S<u> by the creator after J<u> calls the SAME Thread object again (trace marker R)
  *            [ body ]<e>,<e> handler }      try { body } catch (x in e,e) { handler }   (0..2 classes)
  *            L<m> U<m> T<m>  W<m>( body )  Q<m>( body )  i<m>     S<t> J<t> P<t>     (Q: if (trylock) { body; unlock })
  *   <sched> only seeds the yield injection here (the kernel decides the real schedule).
@@ -314,6 +315,7 @@ static void exec_node(struct TCtx* c, struct Node* n) {
       break;
     }
     case 'y': sched_yield(); break;
+    case 'z': { struct timespec ts = {0, (n->a > 200 ? 200 : n->a) * 1000000L}; nanosleep(&ts, NULL); break; }
     case 't': throw(EX[n->a % NEXN], "thrown %i by %i", $I(n->a), $I(c->tid)); break;
     case '[': {
       var c0 = n->ncs > 0 ? EX[n->cs[0] % NEXN] : NULL;
@@ -420,7 +422,15 @@ static var worker_function_object = NULL;
 
 static void do_spawn(struct TCtx* c, long u) {
   struct TCtx* o = &ctx[c->phase][u];
-  if (u <= 0 || u >= nthreads || o->spawned) return;
+  if (u <= 0 || u >= nthreads) return;
+  if (o->spawned) {
+    /* the SAME Thread object is called again (only by its creator, only after its previous run was joined) */
+    if (!o->joined || o->parent != c->tid) return;
+    tlog(o, "R");
+    o->joined = 0;
+    call(thr[u], targ[u]);
+    return;
+  }
   o->spawned = 1; o->parent = c->tid;
   c->kids[u] = thr[u] = managed_threads ? new(Thread, worker_function_object) : new_raw(Thread, worker_function_object);
   call(thr[u], targ[u]);
@@ -440,6 +450,18 @@ static void do_join(struct TCtx* c, long u) {
 static int count_kind(struct Node* n, char k) {
   int r = 0;
   for (; n; n = n->next) { if (n->kind == k) r++; r += count_kind(n->body, k) + count_kind(n->handler, k); }
+  return r;
+}
+
+static int count_spawn_of(struct Node* n, long u) {
+  int r = 0;
+  for (; n; n = n->next) { if (n->kind == 'S' && n->a == u) r++; r += count_spawn_of(n->body, u) + count_spawn_of(n->handler, u); }
+  return r;
+}
+
+static int count_spawns(struct Node** progs, int np, long u) {
+  int r = 0;
+  for (int t = 0; t < np; t++) r += count_spawn_of(progs[t], u);
   return r;
 }
 
@@ -487,9 +509,13 @@ static void one_case(char* line) {
     c->tid = t; c->phase = 0; c->prog = progs[t]; c->alone = 1; c->rnd = seed + (uint64_t)t * 77;
     for (int m = 0; m < MAXM; m++) { cell[m] = 0; inside[m] = 0; insec[m] = 0; }
     var th = new_raw(Thread, fobj);
-    call(th, targ[t]);
-    join(th);
-    flush_fin(c, 'x');
+    int rounds = count_spawns(progs, nthreads, t);
+    for (int r = 0; r < (rounds < 1 ? 1 : rounds); r++) {     /* as often as the Thread object is called together */
+      if (r) tlog(c, "R");
+      call(th, targ[t]);
+      join(th);
+      flush_fin(c, 'x');
+    }
     del_raw(th);
   }
   P("A: "); print_traces(0, 1);
